@@ -83,9 +83,6 @@ func engaRunCase(t *rapid.T, o engaCaseOpts) *engaCase {
 
 // account records the exclusions of the case into vk and reports whether the case has a verdict.
 func (c *engaCase) account(vk *vkCtx) bool {
-	for i := 0; i < c.s.stats.amnesiaExcluded; i++ {
-		vk.Excluded("double_crash_amnesia_crash_skipped")
-	}
 	if c.stopped {
 		vk.Excluded(c.s.excluded)
 		return false
